@@ -43,6 +43,7 @@ ASSUMPTIONS = [
     "hard criteria are neutralised through hc (conj False, xi_max 10, mpc_lim 0, mpd_lim 1e9): criteria are C09's business",
     "tolerances against the truth 1e-7 (fn, lambda), 1e-6 (xi), 1e-9 (1-MAC); independence of the per-setup gains is judged between the identifications of one case with the same tolerances (observed worst difference over the thorough lattice before the kappa guard: 3e-9 in fn, 1e-8 in xi; it is reported in max_observed_error)",
     "combined guard kappa = cO*cR*cX^2 <= 1e7 (worst factors over the setups): the covariance-type Hankel matrix squares the conditioning of the state sequence; the six worst lattice corners (m=3, two references, one roving sensor per setup, real shapes, kappa up to 9e7, xi error 4e-8) are rejected by it",
+    "for ordmax above 2m the combined guard is kappa <= 1e5 (two decades tighter: the re-basing of every setup then goes through the noise-level columns of its observability matrix too; a thorough-tier point m=3, two references, one roving sensor per setup, real shapes, kappa 1.5e6, ordmax at the top of the wide band came out 1.6e-6 off in xi against 1e-6 and had been reported - a false alarm of the check, corrected by this ground-truth guard, not by the tolerance)",
     "the results are read at order 2m; the largest order asked for (ordmax) rotates on the lattice index over 2m, 2m+2 and the two ends of the band br*nref < ordmax <= (br+1)*nref in which the reference block used for re-basing each setup is wide instead of tall (the library accepts it: its Hankel matrix has br+1 block rows)",
     "damping profile, fs and the record lengths of the setups are assigned by fixed rotation on the lattice index; quick additionally rotates the pole placement and the non-unit gain assignments (thorough: all placements, all four gain assignments)",
     "the 'after every preprocessing step' clause of the split is covered for SUCCESSFUL steps by C14's BFS, not here; here: preprocessing calls that raise (FAILING: illegal q / n / ftype / keyword / axis, cut-off outside (0, fs/2), unknown band or trend type, break point or filter padding beyond the shortest record - the last two fail only at the shortest record, i.e. after earlier records of the list have been processed when there are >= 3 setups) and are caught by the caller leave nothing preprocessed: the records are still the noise-free responses of the premise, so the split and the identification are judged exactly as on a fresh object",
@@ -50,7 +51,7 @@ ASSUMPTIONS = [
 ]
 
 HC = dict(conj=False, xi_max=10.0, mpc_lim=0.0, mpd_lim=1e9, cov_max=1e9)
-GUARD = {"cO": 1e6, "cR": 1e6, "cX": 1e4, "part": 1e-3, "kappa": 1e7}
+GUARD = {"cO": 1e6, "cR": 1e6, "cX": 1e4, "part": 1e-3, "kappa": 1e7, "kappa_above_2m": 1e5}
 INV_TOL = dict(T.TOL)      # see ASSUMPTIONS
 ROVING = {"all1": (1, 1, 1, 1), "all2": (2, 2, 2, 2), "mixed": (1, 3, 2, 4)}
 PLACES = ("first", "last", "interleaved", "reversed", "per-setup")
@@ -435,6 +436,12 @@ def run_ident(t, case, seed):
             or g["kappa"] > GUARD["kappa"]):
         t.skipped_by_guard += 1
         t.outcomes["guard-reject"] += 1
+        return
+    if om > o and g["kappa"] > GUARD["kappa_above_2m"]:
+        # ordmax above 2m: each setup is re-based through the noise-level columns of its observability matrix as well, which
+        # costs conditioning (ground-truth guard; a thorough-tier point with kappa 1.5e6 came out 1.6e-6 off in xi)
+        t.skipped_by_guard += 1
+        t.outcomes["guard-reject:ordmax-above-2m"] += 1
         return
     t.states += 1
     first_pos = all(su["refpos"] == list(range(nref)) for su in setups)
